@@ -9,6 +9,7 @@ import (
 	"fmt"
 	"os"
 	"path/filepath"
+	"runtime/metrics"
 	"sort"
 	"strconv"
 	"strings"
@@ -105,16 +106,47 @@ func Replay(id, path string) error {
 	if err != nil {
 		return err
 	}
+	// cases saved by the watchdogs carry the way the call failed to return in their kind; the replayers see the plain kind
+	var rf ReplayFile
+	if json.Unmarshal(data, &rf) == nil {
+		for _, suffix := range []string{"-hang", "-memory", "-fatal"} {
+			if strings.HasSuffix(rf.Kind, suffix) {
+				rf.Kind = strings.TrimSuffix(rf.Kind, suffix)
+				if d, err := json.Marshal(rf); err == nil {
+					data = d
+				}
+				break
+			}
+		}
+	}
 	// a replayed case may be one that hangs: it is given the same deadline, after which the replay counts as failed
+	heapWatch.Do(func() { go watchHeap() })
 	done := make(chan error, 1)
+	hog := make(chan uint64, 1)
 	go func() { done <- Safe(func() error { return f(data) }) }()
+	go func() {
+		for {
+			time.Sleep(50 * time.Millisecond)
+			if h := PeakHeap(); h > HeapLimit {
+				hog <- h
+				return
+			}
+		}
+	}()
 	select {
 	case err := <-done:
 		return err
 	case <-time.After(CaseDeadline):
-		return fmt.Errorf("the call under test did not return within %v", CaseDeadline)
+		return &StuckErr{fmt.Sprintf("the call under test did not return within %v", CaseDeadline)}
+	case h := <-hog:
+		return &StuckErr{fmt.Sprintf("the call under test holds %d MiB of live heap and is still allocating", h>>20)}
 	}
 }
+
+// StuckErr is Replay's verdict on a case whose call is still running (on a goroutine that cannot be stopped).
+type StuckErr struct{ What string }
+
+func (e *StuckErr) Error() string { return e.What }
 
 // Safe converts a panic into an error.
 func Safe(f func() error) (err error) {
@@ -133,8 +165,10 @@ func Safe(f func() error) (err error) {
 // and the verdict lines.
 func Main(t *testing.T, id string, rule string, body func(r *Run)) {
 	r := &Run{T: t, ID: id, Ev: NewEvidence(id, rule), start: time.Now(), knownSeen: map[string]bool{}}
+	heapWatch.Do(func() { go watchHeap() })
 	defer func() {
 		r.Ev.WallS = time.Since(r.start).Seconds()
+		r.Ev.Extra["peak_live_heap_mib_max"] = int64(PeakHeap() >> 20)
 		r.Ev.Violations = len(r.violations)
 		if err := r.Ev.Write(); err != nil {
 			t.Errorf("INFRA: writing evidence: %v", err)
@@ -159,6 +193,12 @@ func Main(t *testing.T, id string, rule string, body func(r *Run)) {
 			if kf, ok := err.(*KnownErr); ok {
 				r.Known(kf.Finding, kf.What)
 				continue
+			}
+			if _, stuck := err.(*StuckErr); stuck {
+				// the stuck call keeps running and may share the fixtures of the checks that follow: the run ends here
+				fmt.Printf("regression %s fails: %v\n", f, err)
+				fmt.Printf("VIOLATION property=%s replay=%s\n", id, f)
+				os.Exit(1)
 			}
 			t.Logf("regression %s fails: %v", f, err)
 			r.mu.Lock()
@@ -327,10 +367,73 @@ func (r *Run) Watched(kind string, c interface{}, f func() error) error {
 // Deadman arms the timer for a case that is run by the caller itself (c may be a pointer to a case that is still
 // being completed); the returned function disarms it.
 func (r *Run) Deadman(kind string, c interface{}) (disarm func()) {
+	fl := &flight{r: r, kind: kind, c: c}
+	prev := inFlight.Swap(fl)
+	if journalOn {
+		r.journal(kind, c)
+	}
 	timer := time.AfterFunc(CaseDeadline, func() {
 		r.AbortViolation(kind+"-hang", c, fmt.Errorf("the call under test did not return within %v", CaseDeadline))
 	})
-	return func() { timer.Stop() }
+	return func() { timer.Stop(); inFlight.Store(prev) }
+}
+
+// flight is the case whose check is running right now (cases run one at a time; the workloads of C18 run inside one).
+type flight struct {
+	r    *Run
+	kind string
+	c    interface{}
+}
+
+var inFlight atomic.Pointer[flight]
+
+// HeapLimit bounds the live heap while a case is in flight.  The live heap of every check on the clean tree stays
+// far below it (under 0.7 GiB; each run records its peak in its evidence as peak_live_heap_mib_max); a call under test that allocates without end
+// (a loop that appends for ever) is a call that does not return, and is reported as such before the machine suffers.
+const HeapLimit = 6 << 30
+
+var peakHeap atomic.Uint64
+
+// PeakHeap is the largest live heap the watchdog saw in this process.
+func PeakHeap() uint64 { return peakHeap.Load() }
+
+func watchHeap() {
+	sample := []metrics.Sample{{Name: "/memory/classes/heap/objects:bytes"}}
+	for {
+		time.Sleep(50 * time.Millisecond)
+		metrics.Read(sample)
+		if sample[0].Value.Kind() != metrics.KindUint64 {
+			return
+		}
+		h := sample[0].Value.Uint64()
+		if h > peakHeap.Load() {
+			peakHeap.Store(h)
+		}
+		if h > HeapLimit {
+			if fl := inFlight.Load(); fl != nil {
+				fl.r.AbortViolation(fl.kind+"-memory", fl.c, fmt.Errorf("the call under test holds %d MiB of live heap and is still allocating", h>>20))
+			}
+		}
+	}
+}
+
+var heapWatch sync.Once
+
+// journalOn makes every case leave its replay file behind before it runs: the driver re-runs a shard in this mode
+// after the process died of an error that Go cannot recover from (stack overflow, allocation failure), so that the
+// last file written is the case that killed it.  Runs are a pure function of tier, seed and shard, so the re-run takes the same path.
+var journalOn = os.Getenv("VERIF_JOURNAL") == "1"
+
+func (r *Run) journal(kind string, c interface{}) {
+	raw, err := json.Marshal(c)
+	if err != nil {
+		return
+	}
+	rf := ReplayFile{Property: r.ID, Kind: kind + "-fatal", Case: raw, Error: "the process died while this case was running"}
+	out, _ := json.Marshal(rf)
+	p := r.replayPath("fatal")
+	_ = os.MkdirAll(filepath.Dir(p), 0o755)
+	_ = os.WriteFile(p, out, 0o644)
 }
 
 // Check evaluates check(c) converting panics to errors; known findings are reported and
@@ -704,6 +807,12 @@ func MergeShards(id string, shards int) error {
 			}
 			switch x := v.(type) {
 			case float64:
+				if strings.HasSuffix(ek, "_max") {
+					if g, _ := merged.Coverage[ek].(float64); x > g {
+						merged.Coverage[ek] = x
+					}
+					continue
+				}
 				addInt(merged.Coverage, ek, x)
 			case []interface{}:
 				if strings.HasSuffix(ek, "_cells") {
